@@ -66,11 +66,17 @@ func BigDecimalFloatToUint(value *apd.Decimal) (uint64, error) {
 		return uint64(i), nil
 	}
 
-	bf, err := BigDecimalFloatToBigFloat(value)
+	// Too big for an int64: go through an exact big.Int (a big.Float would be
+	// rounded to the precision implied by the number of coefficient digits).
+	const maxUint64Base10Exponent = 20
+	bi, err := BigDecimalFloatToBigInt(value, maxUint64Base10Exponent)
 	if err != nil {
 		return 0, err
 	}
-	return BigFloatToUint(bf)
+	if !bi.IsUint64() {
+		return 0, fmt.Errorf("%v cannot fit into type uint64", value)
+	}
+	return bi.Uint64(), nil
 }
 
 // big.Float to other
